@@ -140,6 +140,13 @@ class ArgumentOptions:
 
         if "default" not in self.kwargs or self.kwargs["default"] is None:
             defaultvalue = getattr(originaltype, name, None)
+            if (
+                isinstance(defaultvalue, field)
+                and defaultvalue.default is None
+                and defaultvalue.default_factory is None
+            ):
+                # field() with neither a default nor a factory gives no default
+                defaultvalue = None
             self.kwargs["default"] = defaultvalue
 
         self.kwargs["required"] = (optionaltype is None) and (
